@@ -78,9 +78,10 @@ func c11PathsOfGen(n, style int, from, h int32, dedup bool) (got, want string) {
 
 func init() {
 	mc.Register(&mc.Property{
-		ID:     "C11",
-		Word32: true,
-		Level:  "exploration",
+		ID:       "C11",
+		Word32:   true,
+		DebugTag: true,
+		Level:    "exploration",
 		Rule: "E1 bounded-exhaustive enumeration: every string of length ≤N over {00,ff,a5,5a,01,80} (plus every single byte value, alone and in a 3-byte string, and 12 strings of 11..66 bytes) × every start bit in [0, 8·len+9] (and, for 5 strings, 56 far start bits: 2^16, 2^24, 2^28, 2^29, 2^30 (±1) and the last 41 int32 values) × every width 0..32 (and, on 64-bit builds, strings of 2^28-1, 2^28, 2^28+1 bytes - 2^31 bits, one more than an int32 counts - × start bits at both ends, around 2^30 and around the last int32 × 9 widths, against a byte-level reference): FromStr32 (count and value) and, for widths ≤30, PathOf against the slice [from, from+k) of the string's '0'/'1' rendering; PathsOf on generated key lists of every threshold size (round numbers ±1) from 1000 to 70000 keys × 4 run shapes (all equal, runs of 3, all distinct, runs of 4096 straddling every multiple of 4096) × dedup on/off; PathsOf on every key list of length ≤4 over 5 short keys × dedup on/off × a (from,height) grid against map + adjacent-dedup of the reference paths. " +
 			"A case is one call; non-trivial when 0 < k (some bit is taken from the string) and the string is not all-zero.",
 		Assumptions: []string{"strings longer than N and other byte values are not enumerated (the function reads at most 5 bytes; spans of 1..5 bytes and starts before/at/after the end are all inside)"},
